@@ -18,7 +18,6 @@ multiplication AND dividing by the same quantity (an algebraically equal
 value that divides by something else has other singularities)."""
 import ast
 import itertools
-import random
 import re
 
 from .. import symx
@@ -27,7 +26,7 @@ from ..core import (AnalysisIncomplete, call_name, const_value, kwarg,
 from ..patterns import (Cmp, calls_in, check_no_arg_mutation, subscript_stores,
                         check_warn_calls, conjuncts, finfo, returns_of, shared)
 from .msm_common import BU, LM
-from ..match import CS, _closed_over
+from ..match import C, CS, _closed_over
 from ..match import classify as _classify
 
 EXPLANATION = (
@@ -61,7 +60,9 @@ EXPLANATION = (
     'table over the syntactic conditions; the reference accepts the '
     'rationalised root -2c/(b + sqrt(D)) exactly where b > 0); '
     '(D3.domain.dtype) every call of the compiled estimator passes an '
-    'expression that is float64 by construction. Optimality against every '
+    'expression that is float64 by construction; (D5.result.no-bypass) no return bypasses the iteration under a '
+    'tolerance / ordering test on the counts; (D6.no-hidden-state) the estimator functions keep no state outside the '
+    'call (no global/nonlocal, no store into a non-local object, no memoisation). Optimality against every '
     'reversible competitor is not decided.')
 
 REFERENCE = {
@@ -130,10 +131,32 @@ class _Neg(ast.NodeTransformer):
             return ast.copy_location(ast.UnaryOp(op=ast.USub(), operand=ast.Constant(value=-node.value)), node)
         return node
 
+    _REDUCTIONS = ('sum', 'mean', 'max', 'min', 'prod', 'any', 'all', 'argmax', 'argmin', 'cumsum')
+
+    def visit_Call(self, node):
+        """`x.sum(1)` -> `x.sum(axis=1)`: the first positional argument of a numpy reduction method is the axis."""
+        self.generic_visit(node)
+        if isinstance(node.func, ast.Attribute) and node.func.attr in self._REDUCTIONS and len(node.args) == 1 \
+                and not any(k.arg == 'axis' for k in node.keywords) and not isinstance(node.args[0], ast.Starred):
+            node.keywords = [ast.keyword(arg='axis', value=node.args[0])] + list(node.keywords)
+            node.args = []
+        return node
+
+
+NEAR_MAX = 2
+
 
 def classify(node, patterns, **kw):
+    """match.classify; with `scope` the verdict `near` (a different function
+    of the same operands -> violation) is kept only when the expression is a
+    SMALL edit (<= NEAR_MAX positions) of an accepted form.  A closed
+    expression of another shape may be an equal spelling the list of accepted
+    forms does not contain: the rule cannot tell -> `far` (incomplete)."""
     import copy
-    return _classify(_Neg().visit(copy.deepcopy(node)), patterns, **kw)
+    v = _classify(_Neg().visit(copy.deepcopy(node)), patterns, **kw)
+    if kw.get('scope') is not None and v[0] == 'near' and v[1] > NEAR_MAX:
+        return ('far',) + tuple(v[1:])
+    return v
 
 
 def _inplace_sites(fi, name):
@@ -222,6 +245,16 @@ def _show(t, n=160):
 
 
 _COND_SYMS = {}
+_COND_NEG = {}
+
+
+def _feasible(on):
+    """The sign tests in `on` can hold together: not e > 0 with -e > 0, not e == 0 with e > 0 or -e > 0."""
+    for kind, txt in on:
+        neg = _COND_NEG.get(txt)
+        if kind == 'P' and (('P', neg) in on or ('Z', min(txt, neg or txt)) in on):
+            return False
+    return True
 _ALLOWED = re.compile(r"^(?:(?:C|X)\[(?:i|j),(?:i|j)\]|(?:C_rs|X_rs)\[(?:i|j)\]|logl)'?$")
 
 
@@ -243,28 +276,62 @@ def _closed(t):
     return True
 
 
-def _numeric_differs(g, w):
-    """True: the two expressions take different values at a random point;
-    False: equal at every sampled point; None: cannot evaluate."""
+def _provably_nonzero(N):
+    """A certificate that the expression N (a polynomial in the cell symbols,
+    square roots, absolute values and LOG terms) is not the zero FUNCTION.
+    Purely algebraic: every non-polynomial atom is replaced by an
+    indeterminate; at most one algebraic atom s (sqrt(R) with R no perfect
+    square, or |e|) is admitted and N is reduced modulo s**2 - R, so a
+    non-zero remainder A + B*s cannot vanish identically (s is not a rational
+    function); the LOG atoms have to be multiplicatively independent
+    arguments (then they are algebraically independent over the rational
+    functions and the algebraic atom).  True / None (no certificate)."""
     sp = _sp()
     LOGf = sp.Function('LOG')
-    g, w = g.replace(LOGf, sp.log), w.replace(LOGf, sp.log)
-    syms = sorted(g.free_symbols | w.free_symbols, key=lambda s: s.name)
-    rnd = random.Random(12)
-    seen = False
-    for _ in range(4):
-        sub = {s: sp.Rational(rnd.randint(11, 97), rnd.randint(3, 9)) for s in syms}
-        try:
-            a = complex(sp.N(g.subs(sub), 30))
-            b = complex(sp.N(w.subs(sub), 30))
-        except Exception:
-            continue
-        if a != a or b != b:
-            continue
-        seen = True
-        if abs(a - b) > 1e-9 * (1 + abs(a) + abs(b)):
-            return True
-    return False if seen else None
+    half = sp.Rational(1, 2)
+    N = sp.expand(N)
+    if N == 0:
+        return None
+    roots = [a for a in N.atoms(sp.Pow) if not a.exp.is_Integer]
+    abss = list(N.atoms(sp.Abs))
+    logs = sorted(N.atoms(LOGf), key=str)
+    others = [a for a in N.atoms(sp.Function) if a.func is not LOGf and not isinstance(a, sp.Abs)]
+    if others or any(a.exp != half for a in roots) or len(roots) + len(abss) > 1:
+        return None
+    for a in roots + abss + logs:
+        inner = a.base if a.is_Pow else a.args[0]
+        if inner.atoms(sp.Function) or any(not q.exp.is_Integer for q in inner.atoms(sp.Pow)) or not inner.free_symbols:
+            return None
+    try:
+        if len(logs) > 1:
+            # exponent vectors of the irreducible factors of the arguments: full rank <=> multiplicatively independent
+            cols, rows = [], []
+            for lg in logs:
+                num, den = sp.fraction(sp.together(lg.args[0]))
+                row = {}
+                for part, sign in ((num, 1), (den, -1)):
+                    for f, e in sp.factor_list(part)[1]:
+                        row[f] = row.get(f, 0) + sign * e
+                rows.append(row)
+                cols += [f for f in row if f not in cols]
+            if sp.Matrix([[row.get(f, 0) for f in cols] for row in rows]).rank() < len(logs):
+                return None
+        rep = {lg: sp.Dummy('L%d' % k, real=True) for k, lg in enumerate(logs)}
+        P = N.xreplace(rep)
+        for a in roots + abss:
+            Q = a.base if a.is_Pow else a.args[0] ** 2
+            if a.is_Pow:
+                coeff, facs = sp.factor_list(Q)
+                if all(e % 2 == 0 for _, e in facs):
+                    return None         # a perfect square (up to a constant): sqrt is rational
+            d = sp.Dummy('s', real=True)
+            P = sp.rem(sp.expand(P.xreplace({a: d})), d ** 2 - sp.expand(Q), d)
+        P = sp.expand(P)
+        if P.atoms(sp.Function) or any(not q.exp.is_Integer for q in P.atoms(sp.Pow)):
+            return None                 # an atom survived the replacement (other power of the root ...)
+        return True if P != 0 else None
+    except Exception:
+        return None
 
 
 def same_partial(g, w):
@@ -286,10 +353,13 @@ def same_partial(g, w):
                             'the quotient is undefined (0/0, catastrophic cancellation) at other points' % (str(dg)[:120], str(dw)[:60]))
     except Exception:
         pass
-    d = _numeric_differs(g, w)
-    if d is True:
-        return 'near', 'different value'
-    return 'far', 'equality could not be established symbolically'
+    # not equal after normalisation: is it provably another function?  g - w = N / (dg * dw)
+    try:
+        if _provably_nonzero(ng * dw - nw * dg):
+            return 'near', 'different value'
+    except Exception:
+        pass
+    return 'far', 'neither equality nor difference could be established symbolically'
 
 
 def cmp_tree(got, want, alts=()):
@@ -304,6 +374,8 @@ def cmp_tree(got, want, alts=()):
         return 'far', 'too many case distinctions'
     worst, why = 'match', ''
     for bits in itertools.product((True, False), repeat=len(cs)):
+        if not _feasible({c for c, pol in zip(cs, bits) if pol}):
+            continue
         g, w = got, want
         others = list(alts)
         for c, pol in zip(cs, bits):
@@ -426,6 +498,8 @@ class _Exec:
         sp = _sp()
 
         def mk(kind, e, pos=True):
+            if kind == 'NN':            # e >= 0  <=>  not (-e > 0): one atom per sign test, whatever its spelling
+                kind, e, pos = 'P', -e, not pos
             e = sp.expand(e)
             if not e.free_symbols:
                 val = {'P': e > 0, 'NN': e >= 0, 'Z': e == 0}[kind]
@@ -436,6 +510,7 @@ class _Exec:
             else:
                 txt = str(e)
             _COND_SYMS[(kind, txt)] = frozenset(x.name for x in e.free_symbols)
+            _COND_NEG[txt] = str(sp.expand(-e))
             return _Ite((kind, txt), pos, not pos)
         if op is ast.Lt:
             return mk('P', r - l)
@@ -560,7 +635,7 @@ class _Exec:
         return any(isinstance(x, ast.Subscript) and isinstance(x.ctx, (ast.Store, ast.Del)) for x in ast.walk(s))
 
     def run_body(self, stmts):
-        for s in stmts:
+        for s in _fold_continue(list(stmts)):
             if self.writes_acc(s):
                 if self.stores_cell(s):
                     raise AnalysisIncomplete('statement updates both the accumulator and an array cell')
@@ -593,6 +668,44 @@ class _Exec:
                 if _teq(old, v):
                     self.env[k] = s2
                     break
+
+
+def _has_continue(s):
+    """A `continue` below s that belongs to the loop in whose body s sits."""
+    if isinstance(s, ast.Continue):
+        return True
+    if isinstance(s, (ast.For, ast.While, ast.FunctionDef, ast.AsyncFunctionDef, ast.Lambda, ast.ClassDef)):
+        return False
+    return any(_has_continue(c) for c in ast.iter_child_nodes(s))
+
+
+def _fold_continue(stmts, cont=()):
+    """The body of a loop with every `continue` that sits under plain `if`s
+    expressed by if/else: `if c: A; continue` + rest == `if c: A else: rest`
+    (the rest is duplicated into every arm that falls through).  Same effect per
+    iteration; the statements are the original nodes."""
+    if not stmts:
+        return list(cont)
+    s, tail = stmts[0], list(stmts[1:])
+    if isinstance(s, ast.Continue):
+        return []
+    if isinstance(s, ast.If) and _has_continue(s):
+        k = _fold_continue(tail, cont)
+        new = ast.If(test=s.test, body=_fold_continue(s.body, k) or [ast.Pass()], orelse=_fold_continue(s.orelse, k))
+        return [ast.copy_location(new, s)]
+    return [s] + _fold_continue(tail, cont)
+
+
+def _cell_stores(root, arrays):
+    """Statements below root that store into a cell of one of the arrays."""
+    out = []
+    for st in ast.walk(root):
+        if isinstance(st, (ast.Assign, ast.AugAssign, ast.AnnAssign)):
+            tgs = st.targets if isinstance(st, ast.Assign) else [st.target]
+            if any(isinstance(x, ast.Subscript) and isinstance(x.ctx, ast.Store) and isinstance(x.value, ast.Name) and x.value.id in arrays
+                   for t in tgs for x in ast.walk(t)):
+                out.append(st)
+    return out
 
 
 def _as_load(t):
@@ -686,9 +799,13 @@ def find_roles(ck, mod, fn, impl):
     r.Crs = pick(ro1, 'C_rs', 'the row sums of the counts (1-D array only read in the iteration)')
     if None in (r.X, r.Xrs, r.Crs):
         return None
+    r.Cparam = r.C
     if r.C not in ro2:
-        ck.missing(rule, '%s: the count matrix `%s` is not read with a 2-D index in the iteration' % (impl, r.C))
-        return None
+        if len(ro2) == 1:
+            r.C = next(iter(ro2))       # the converted copy of the counts lives under a name of its own
+        else:
+            ck.missing(rule, '%s: the count matrix `%s` is not read with a 2-D index in the iteration' % (impl, r.C))
+            return None
     r.states = (r.C, r.X, r.Xrs, r.Crs)
     # update loops, through the stores into X
     diag, pair = [], []
@@ -728,27 +845,137 @@ def find_roles(ck, mod, fn, impl):
         for s in _inplace_sites(r.fi, nm):
             ck.missing(rule, '%s: `%s` changes %s in place' % (impl, u(s)[:80], nm))
             return None
-    # the accumulator of the pseudo log-likelihood: reset at the top of a sweep, augmented in both update loops
-    accs = []
-    for s in loop.body:
-        if isinstance(s, ast.Assign) and len(s.targets) == 1 and isinstance(s.targets[0], ast.Name) and const_value(s.value) == 0:
-            nm = s.targets[0].id
-            w1 = any(isinstance(x, (ast.Assign, ast.AugAssign)) and nm in [t.id for t in (x.targets if isinstance(x, ast.Assign) else [x.target]) if isinstance(t, ast.Name)]
-                     for x in ast.walk(r.diag))
-            w2 = any(isinstance(x, (ast.Assign, ast.AugAssign)) and nm in [t.id for t in (x.targets if isinstance(x, ast.Assign) else [x.target]) if isinstance(t, ast.Name)]
-                     for x in ast.walk(r.pair_j))
-            if w1 and w2:
-                accs.append((nm, s))
-    if len(accs) != 1:
-        ck.missing(rule, '%s: pseudo log-likelihood accumulator (`<acc> = 0` at the top of a sweep, updated in both loops): found %d' % (impl, len(accs)))
+    # the accumulator of the pseudo log-likelihood, as a def-use chain: a scalar that is carried through the
+    # iterations of the first update loop starting from a `= 0` inside the sweep, and a scalar carried through the
+    # second update loop starting from the value the first one ends with.  Plain copies `p = q` between the
+    # stations (an accumulator handed to / returned from an extracted helper) are looked through.
+    fi = r.fi
+    first, second = ((r.diag, r.pair_i) if fi.cfg.dominates(r.diag, r.pair_i) else
+                     (r.pair_i, r.diag) if fi.cfg.dominates(r.pair_i, r.diag) else (None, None))
+    if first is None:
+        ck.missing(rule, '%s: neither update loop precedes the other on every path' % impl)
         return None
-    r.logl, r.reset = accs[0]
+    chains = []
+    for a1 in _carried_scalars(first):
+        roots1 = _entry_roots(fi, mod, first, a1, skip=first)
+        if len(roots1) != 1:
+            continue
+        (_, reset), = roots1
+        if reset in ('PARAM', 'UNBOUND') or not _inside(mod, reset, loop) or not isinstance(reset, ast.Assign) \
+                or const_value(reset.value) != 0 or isinstance(const_value(reset.value), bool):
+            continue
+        w1 = {(a1, s) for s in _scalar_writes(first, a1)}
+        for a2 in _carried_scalars(second):
+            roots2 = _entry_roots(fi, mod, second, a2, skip=second)
+            if roots2 & w1 and roots2 - w1 == roots1:
+                chains.append((a1, a2, reset))
+    if len(chains) != 1:
+        ck.missing(rule, '%s: pseudo log-likelihood accumulator (`<acc> = 0` in a sweep, carried through both update loops): found %d' % (impl, len(chains)))
+        return None
+    a1, a2, r.reset = chains[0]
+    r.acc = {'diag': a1 if first is r.diag else a2, 'pair': a2 if first is r.diag else a1}
+    r.logl = a2                         # what the sweep ends with (the convergence test looks at it)
     if not (r.fi.cfg.dominates(r.reset, r.diag) and r.fi.cfg.dominates(r.reset, r.pair_i)):
         ck.missing(rule, '%s: `%s` does not precede both update loops' % (impl, u(r.reset)))
         return None
     ck.ok(rule, mod, loop, '%s: C=%s X=%s X_rs=%s C_rs=%s acc=%s' % (impl, r.C, r.X, r.Xrs, r.Crs, r.logl),
           'roles located through parameters, stores and loops')
     return r
+
+
+def _scalar_writes(root, nm):
+    """Statements below root that (re)bind the plain name nm."""
+    out = []
+    for x in ast.walk(root):
+        if isinstance(x, ast.AugAssign) and isinstance(x.target, ast.Name) and x.target.id == nm:
+            out.append(x)
+        elif isinstance(x, ast.Assign) and any(isinstance(n, ast.Name) and n.id == nm for t in x.targets for n in ast.walk(t)
+                                               if isinstance(getattr(n, 'ctx', None), ast.Store)):
+            out.append(x)
+        elif isinstance(x, ast.AnnAssign) and x.value is not None and isinstance(x.target, ast.Name) and x.target.id == nm:
+            out.append(x)
+    return out
+
+
+def _carried_scalars(L):
+    """Plain names whose new value inside loop L is a function of their own
+    previous value (`n += e`, `n = n + e`): candidates for an accumulator."""
+    out = []
+    for x in ast.walk(L):
+        nm = None
+        if isinstance(x, ast.AugAssign) and isinstance(x.target, ast.Name):
+            nm = x.target.id
+        elif isinstance(x, ast.Assign) and len(x.targets) == 1 and isinstance(x.targets[0], ast.Name) and any(
+                isinstance(n, ast.Name) and n.id == x.targets[0].id for n in ast.walk(x.value)):
+            nm = x.targets[0].id
+        if nm is not None and nm not in out:
+            out.append(nm)
+    return out
+
+
+def _entry_roots(fi, mod, at, nm, skip=None, depth=6):
+    """{(name, site)}: the definitions that determine what `nm` holds when
+    statement `at` is reached - definitions inside `skip` (the loop itself,
+    when asking for the value on entry) are ignored, plain copies `p = q` are
+    replaced by the definitions of q that reach them."""
+    out, seen = set(), set()
+
+    def go(at_, nm_, skip_, d):
+        for s in fi.rd.defs_at(at_, nm_):
+            if s not in ('PARAM', 'UNBOUND') and skip_ is not None and _inside(mod, s, skip_):
+                continue
+            key = (nm_, s if isinstance(s, str) else id(s))
+            if key in seen:
+                continue
+            seen.add(key)
+            if d > 0 and isinstance(s, ast.Assign) and len(s.targets) == 1 and isinstance(s.targets[0], ast.Name) \
+                    and isinstance(s.value, ast.Name):
+                go(s, s.value.id, None, d - 1)
+            else:
+                out.add((nm_, s))
+    go(at, nm, skip, depth)
+    return out
+
+
+def _range_parts(e):
+    if not (isinstance(e, ast.Call) and call_name(e) == 'range' and not e.keywords and 1 <= len(e.args) <= 3) \
+            or any(isinstance(a, ast.Starred) for a in e.args):
+        return None
+    a = list(e.args)
+    return (ast.Constant(value=0), a[0], ast.Constant(value=1)) if len(a) == 1 else (a[0], a[1], ast.Constant(value=1)) if len(a) == 2 else tuple(a)
+
+
+def _range_verdict(e, accepted, sizes, extra=()):
+    """Decide `range(...)` over integer expressions semantically: start, stop
+    and step are lifted to polynomials in n (every spelling of the number of
+    states) and the enclosing loop variables.  Unit step and the same start and
+    stop as an accepted form -> match; unit step, integer-affine bounds in the
+    same symbols but another start or stop -> another index set -> near.
+    None: not such a range (the caller falls back to the pattern list)."""
+    sp = _sp()
+    parts = _range_parts(e)
+    if parts is None:
+        return None
+    rename = {C(t): 'n' for t in sizes}
+    rename.update({t: 'n' for t in sizes})
+    try:
+        got = [sp.expand(symx.lift(x, rename=rename)) for x in parts]
+        want = [[sp.expand(symx.lift(x, rename=rename)) for x in _range_parts(ast.parse(t, mode='eval').body)] for t in accepted]
+    except AnalysisIncomplete:
+        return None
+    allowed = {'n'} | set(extra)
+    if any(not (x.is_polynomial() and all(sy.name in allowed for sy in x.free_symbols)) for x in got):
+        return None
+    if got[2] != 1:
+        return ('far', 0, 'non-unit step')
+    if any(got[0] == w[0] and got[1] == w[1] for w in want):
+        return ('match', {})
+    return ('near', 1, accepted[0])
+
+
+class _Unknown(str):
+    """Text of a construct whose role was located but whose content the rule
+    did not recognise (already reported as incomplete)."""
 
 
 def _sizes(r):
@@ -791,10 +1018,12 @@ def sweep_model(ck, r):
     def rng(loopnode, forms, what, extra=()):
         e = fi.expand(loopnode.iter, stop=r.states)
         pats = [f % {'N': n} for n in sizes for f in forms]
-        v = classify(e, pats, scope=scope | set(extra))
+        v = _range_verdict(e, [f % {'N': 'n'} for f in forms], sizes, extra) or classify(e, pats, scope=scope | set(extra))
         ck.decide(v, rule + '.range', mod, loopnode, F, '%s: for %s in %s' % (impl, u(loopnode.target), u(loopnode.iter)),
                   '%s ranges over %s' % (what, forms[0] % {'N': 'n'}),
                   '%s: %s must range over %s (n = number of states); `%s` visits other cells' % (impl, what, forms[0] % {'N': 'n'}, fi.xu(loopnode.iter, stop=r.states)))
+        if v[0] == 'far':
+            return _Unknown(fi.xu(loopnode.iter, stop=r.states))
         return forms[0] % {'N': 'n'} if v[0] == 'match' else fi.xu(loopnode.iter, stop=r.states)
     model['range.diag'] = rng(r.diag, ['range(%(N)s)', 'range(0, %(N)s)'], 'the diagonal update')
     model['range.pair.i'] = rng(r.pair_i, ['range(%(N)s - 1)', 'range(0, %(N)s - 1)', 'range(%(N)s)', 'range(0, %(N)s)'], 'the first index of the pair update')
@@ -811,10 +1040,15 @@ def sweep_model(ck, r):
         for x in ast.walk(top):
             if not isinstance(x, (ast.Continue, ast.Break, ast.Return, ast.Raise)):
                 continue
-            skipped[tag] = True
             own = (_loops_between(mod, x, top) or [top])[0]
             g = _esc_guard(mod, x, own)
             kind = type(x).__name__.lower()
+            if g and isinstance(x, ast.Continue) and own in (r.diag, r.pair_j) and not any(
+                    fi.cfg.reachable(g[-1][0], st, avoiding=[own]) for st in _cell_stores(own, (r.X, r.Xrs))):
+                # a `continue` behind the last store of the iteration: it skips (part of) the likelihood term only;
+                # the symbolic execution below reads it as the if/else it stands for
+                continue
+            skipped[tag] = True
             if g and own in (r.diag, r.pair_i, r.pair_j) and isinstance(x, (ast.Continue, ast.Break)) and all(
                     _closed_over(fi.expand(n.test, stop=r.states), scope | set(idx)) for n, _ in g):
                 n0 = g[-1][0]
@@ -828,7 +1062,8 @@ def sweep_model(ck, r):
                 ck.missing('C12.D3.every-pair', '%s: `%s` inside the %s update loop (%s): control flow not modelled' % (impl, kind, tag, mod.loc(x)))
         if tag not in skipped:
             model['%s.every' % tag] = 'always'
-            ck.ok('C12.D3.every-pair', mod, top, '%s: %s loop body has no continue/break/return' % (impl, tag), 'every cell is updated in every sweep')
+            ck.ok('C12.D3.every-pair', mod, top, '%s: %s loop body has no continue/break/return ahead of a store' % (impl, tag),
+                  'every cell is updated in every sweep')
 
     # statements of the outer pair loop around the inner one: only scalars of the immutable state may be hoisted there
     prelude = []
@@ -838,7 +1073,7 @@ def sweep_model(ck, r):
         live = lambda ss: [s for s in ss if not isinstance(s, ast.Pass) and not (isinstance(s, ast.Expr) and isinstance(s.value, ast.Constant))]
         if before is None or live(after) or any(
                 not (isinstance(s, ast.Assign) and all(isinstance(t, ast.Name) for t in s.targets)) or
-                {n.id for n in ast.walk(s.value) if isinstance(n, ast.Name)} & {r.X, r.Xrs, r.logl} for s in live(before)):
+                {n.id for n in ast.walk(s.value) if isinstance(n, ast.Name)} & ({r.X, r.Xrs, r.logl} | set(r.acc.values())) for s in live(before)):
             ck.missing(rule, '%s: statements of the outer pair loop besides the inner loop are not modelled' % impl)
             skipped['pair'] = True
         else:
@@ -851,7 +1086,7 @@ def sweep_model(ck, r):
         if tag in skipped:
             continue
         alias = dict(alias)
-        alias.update({r.C: 'C', r.X: 'X', r.Xrs: 'X_rs', r.Crs: 'C_rs', r.logl: 'logl'})
+        alias.update({r.C: 'C', r.X: 'X', r.Xrs: 'X_rs', r.Crs: 'C_rs', r.acc[tag]: 'logl'})
         if len(set(alias.values())) != len(alias):
             ck.missing(rule, '%s: roles are not distinct names' % impl)
             continue
@@ -900,11 +1135,11 @@ def sweep_model(ck, r):
             blamed.add((id(node), v))
             ck.decide(v, rule, mod, node, F, construct, '%s equals the reference Prinz update (%s) after symbolic execution' % (k, REF_OF[k]), detail)
         if tag == 'pair' and 'X[i,j]' in ex.phase1 and 'X[j,i]' in ex.phase1:
-            sym = _teq(ex.phase1['X[i,j]'], ex.phase1['X[j,i]'])
-            ck.check(sym, rule + '.symmetric', mod, ex.where.get('X[j,i]') or L, F,
-                     '; '.join(sorted({u(ex.where[k])[:60] for k in ('X[i,j]', 'X[j,i]') if k in ex.where})),
-                     'X[i,j] and X[j,i] both take the new value (X stays symmetric)',
-                     '%s: both X[i, j] and X[j, i] must be set to the same new value v' % impl)
+            sym = 'match' if _teq(ex.phase1['X[i,j]'], ex.phase1['X[j,i]']) else cmp_tree(ex.phase1['X[j,i]'], ex.phase1['X[i,j]'])[0]
+            ck.decide(sym, rule + '.symmetric', mod, ex.where.get('X[j,i]') or L, F,
+                      '; '.join(sorted({u(ex.where[k])[:60] for k in ('X[i,j]', 'X[j,i]') if k in ex.where})),
+                      'X[i,j] and X[j,i] both take the new value (X stays symmetric)',
+                      '%s: both X[i, j] and X[j, i] must be set to the same new value v' % impl)
             if all_ok:
                 ck.ok(rule + '.order', mod, ex.where.get('X_rs[i]') or L, 'row-sum updates use the value X[i,j] had before the store',
                       'row sums are updated with the OLD X[i,j] (the final row sums equal X_rs + (v - X_old))')
@@ -992,7 +1227,7 @@ def _root_cancellation(ck, r, L, ex):
         on = {c for c, pol in zip(cs, bits) if pol}
         off = {c for c, pol in zip(cs, bits) if not pol}
         # impossible sign combinations of one quantity (e > 0 but not e >= 0)
-        if any(c[0] == 'P' and ('NN', c[1]) in off for c in on):
+        if not _feasible(on):
             continue
         for t, e, txt in _cancelling_sums(leaf):
             found += 1
@@ -1040,14 +1275,15 @@ def _log_guard(ck, r, tag, L, ex, acc):
         leaf = acc
         for c, pol in zip(cs, bits):
             leaf = _restrict(leaf, c, pol)
-        if isinstance(leaf, bool):
+        on = {c for c, pol in zip(cs, bits) if pol}
+        if isinstance(leaf, bool) or not _feasible(on):
             continue
         logs = leaf.atoms(LOGf)
-        on = {c for c, pol in zip(cs, bits) if pol}
         for lg in logs:
             n += 1
             num = sp.fraction(sp.together(lg.args[0]))[0]
-            if ('P', str(sp.expand(num))) not in on:
+            off = {c for c, pol in zip(cs, bits) if not pol}
+            if ('P', str(sp.expand(num))) not in on and ('NN', str(sp.expand(-num))) not in off:
                 verdict = 'near' if _closed(acc) else 'far'
                 why = 'log(%s) is evaluated when %s' % (lg.args[0], ' and '.join('%s%s(%s)' % ('' if pol else 'not ', c[0], c[1]) for c, pol in zip(cs, bits)) or 'always')
     if n == 0:
@@ -1074,7 +1310,9 @@ def d3_siblings(ck, rp, mp_model, rx, mx_model):
         if a is None or b is None:
             ck.missing(rule, 'role `%s` extracted from only one implementation' % k)
             continue
-        if isinstance(a, (str, list, tuple)) or isinstance(b, (str, list, tuple)):
+        if isinstance(a, _Unknown) or isinstance(b, _Unknown):
+            v, why = ('match', '') if str(a) == str(b) else ('far', 'not recognised in one implementation: %s | %s' % (a, b))
+        elif isinstance(a, (str, list, tuple)) or isinstance(b, (str, list, tuple)):
             v, why = ('match', '') if a == b else ('near', '%s | %s' % (a, b))
         else:
             v, why = cmp_tree(a, b)
@@ -1273,6 +1511,24 @@ def _cap_verdict(cmpn, lv, cap):
     return 'match' if bool(holds(at_end)) and not bool(holds(before)) else 'near'
 
 
+_BUILTIN_WARNINGS = ('Warning', 'UserWarning', 'RuntimeWarning', 'DeprecationWarning', 'FutureWarning', 'PendingDeprecationWarning',
+                     'SyntaxWarning', 'ImportWarning', 'UnicodeWarning', 'BytesWarning', 'ResourceWarning', 'EncodingWarning')
+
+
+def _category_verdict(ck, mod, fi, cat):
+    """match: the category is (an import alias of) ConvergenceWarning; near: none given / a builtin warning class / a
+    constant; far: a name the rule cannot resolve."""
+    if cat is None:
+        return 'near'
+    e = fi.expand(cat)
+    txt = u(e)
+    if txt.endswith('ConvergenceWarning') or _qualified(ck, mod, txt).endswith('ConvergenceWarning'):
+        return 'match'
+    if isinstance(e, ast.Constant) or txt.split('.')[-1] in _BUILTIN_WARNINGS:
+        return 'near'
+    return 'far'
+
+
 def d2_warning(ck, r):
     rule = 'C12.D2.warning'
     mod, fn, fi, loop = r.mod, r.fn, r.fi, r.loop
@@ -1281,12 +1537,16 @@ def d2_warning(ck, r):
     lv, cap = r.n_iter, r.cap
     for c in ws:
         cat = c.args[1] if len(c.args) > 1 else kwarg(c, 'category')
-        ck.check(cat is not None and u(fi.expand(cat)).endswith('ConvergenceWarning'), rule + '.category', mod, c, fn.name, u(c)[:120],
-                 'category is ConvergenceWarning', 'the non-convergence warning must carry category ConvergenceWarning')
+        ck.decide(_category_verdict(ck, mod, fi, cat), rule + '.category', mod, c, fn.name, u(c)[:120],
+                  'category is ConvergenceWarning', 'the non-convergence warning must carry category ConvergenceWarning')
         ws_stmt = mod.enclosing_stmt(c)
         g = mod.parent.get(ws_stmt)
         if not isinstance(g, ast.If):
-            ck.bad(rule + '.reachable', mod, c, fn.name, u(c)[:80], 'warning is not guarded by an iteration-cap test')
+            if g is fn:
+                ck.bad(rule + '.reachable', mod, c, fn.name, u(c)[:80], 'warning is not guarded by an iteration-cap test')
+            else:
+                ck.missing(rule + '.reachable', '%s: the warning sits in a `%s` (%s), not under a test of the iteration cap: not modelled' % (
+                    r.impl, type(g).__name__.lower(), mod.loc(ws_stmt)))
         else:
             pol = any(ws_stmt is x for x in g.body)
             cs = conjuncts(fi.expand(g.test), pol)
@@ -1300,10 +1560,40 @@ def d2_warning(ck, r):
                           'Cython); the condition `%s` does not hold exactly then, so a non-converged model is returned silently '
                           '(or a converged one is reported as failed)' % (lv, cap, lv, cap, u(g.test)))
         # must come after the loop
-        ck.check(fi.cfg.reachable(loop, ws_stmt) and not _inside(mod, c, loop), rule + '.reachable', mod, c, fn.name,
-                 'position of the warning', 'warning is evaluated after the iteration loop', 'the cap test must follow the loop')
+        if _inside(mod, c, loop):
+            ck.missing(rule + '.reachable', '%s: the warning is issued inside the iteration loop (%s): not modelled' % (r.impl, mod.loc(ws_stmt)))
+        else:
+            ck.check(fi.cfg.reachable(loop, ws_stmt), rule + '.reachable', mod, c, fn.name,
+                     'position of the warning', 'warning is evaluated after the iteration loop', 'the cap test must follow the loop')
     ck.floor(rule + '.wellformed', len(ws), 1, 'convergence warning in %s' % fn.name)
     return d2_convergence(ck, r)
+
+
+def _liftable(*es):
+    try:
+        for e in es:
+            symx.lift(e)
+        return True
+    except AnalysisIncomplete:
+        return False
+
+
+def _change_vs_tol(small, big, logl, old, tol):
+    """`small < big` read as the sign of D = big - small.  True: D is
+    |logl - old| - tol (the change is the big side); False: D is
+    tol - |logl - old|; None: neither (or not liftable)."""
+    sp = _sp()
+    try:
+        D = symx.lift(big) - symx.lift(small)
+    except AnalysisIncomplete:
+        return None
+    l, o, t = (sp.Symbol(n, real=True) for n in (logl, old, tol))
+    want = sp.Abs(l - o) - t
+    if sp.expand(D - want) == 0:
+        return True
+    if sp.expand(D + want) == 0:
+        return False
+    return None
 
 
 def d2_convergence(ck, r):
@@ -1325,12 +1615,18 @@ def d2_convergence(ck, r):
     # the remembered likelihood: the name that is assigned the accumulator at the level of the iteration loop
     upd = [s for s in ast.walk(loop) if isinstance(s, ast.Assign) and len(s.targets) == 1 and isinstance(s.targets[0], ast.Name)
            and s.targets[0].id != r.logl and _loops_between(mod, s, loop) == [] and fi.xu(s.value, stop=(r.logl,)) == r.logl]
-    olds = sorted({s.targets[0].id for s in upd})
+    # ... and that the test of the `break` reads (a copy of the accumulator made for another purpose is not it)
+    cands = {s.targets[0].id for s in upd} - set(r.acc.values())
+    in_test = {n.id for n in ast.walk(fi.expand(ifn.test, stop=(r.logl,) + tuple(sorted(cands)))) if isinstance(n, ast.Name)}
+    if cands & in_test:
+        cands &= in_test
+    upd = [s for s in upd if s.targets[0].id in cands]
+    olds = sorted(cands)
     if not olds:
         # nothing is assigned the accumulator: is there a remembered value in the test that is never refreshed?
         seen = {n.id for n in ast.walk(ifn.test) if isinstance(n, ast.Name)}
         others = sorted(seen - {r.tol, r.logl, 'abs', 'np', 'fabs', 'math'})
-        if len(others) == 1 and r.logl in seen:
+        if len(others) == 1 and r.logl in seen and not _scalar_writes(loop, others[0]):
             ck.bad(rule, mod, ifn, F, u(ifn.test), bad_msg + ': `%s` is compared with `%s` but never set to it in the loop' % (others[0], r.logl))
             return None
     if len(olds) != 1:
@@ -1346,24 +1642,31 @@ def d2_convergence(ck, r):
     if isinstance(test, ast.Compare) and len(test.ops) == 1:
         less = Cmp(test.left, type(test.ops[0]), test.comparators[0]).as_less()
     if less is None:
-        ck.decide('near' if _closed_over(test, sc) else 'far', rule, mod, ifn, F, u(ifn.test), '', bad_msg)
+        # a boolean combination / call: may be an equal spelling of the reference test
+        ck.decide('far', rule, mod, ifn, F, u(ifn.test), '', bad_msg)
         return None
     small, strict, big = less
     forms = []
     for f in ('abs', 'np.abs', 'fabs', 'math.fabs', 'np.fabs'):
         forms += ['%s(%s - %s)' % (f, r.logl, r.old), '%s(%s - %s)' % (f, r.old, r.logl)]
     closed = _closed_over(test, sc)
-    if u(small) == r.tol:
-        change, tol_small = big, True
-    elif u(big) == r.tol:
-        change, tol_small = small, False
+    # `small < big` as the sign of D = big - small: the reference is D == |logl - old| - tol (tol on the small side)
+    sym = _change_vs_tol(small, big, r.logl, r.old, r.tol)
+    if sym is not None:
+        tol_small = sym
     else:
-        ck.decide('near' if closed else 'far', rule, mod, ifn, F, u(ifn.test), '', bad_msg + ' (the change must be compared with the tolerance)')
-        return None
-    vb = classify(change, forms, scope=sc)
-    if vb[0] != 'match':
-        ck.decide(vb if closed else 'far', rule, mod, ifn, F, u(ifn.test), '', bad_msg)
-        return None
+        if u(small) == r.tol:
+            change, tol_small = big, True
+        elif u(big) == r.tol:
+            change, tol_small = small, False
+        else:
+            ck.decide('near' if closed and sym is None and _liftable(small, big) else 'far', rule, mod, ifn, F, u(ifn.test), '',
+                      bad_msg + ' (the change must be compared with the tolerance)')
+            return None
+        vb = classify(change, forms, scope=sc)
+        if vb[0] != 'match':
+            ck.decide(vb if closed else 'far', rule, mod, ifn, F, u(ifn.test), '', bad_msg)
+            return None
     if not cont and not tol_small and not strict:
         # `break if change <= tol`: the complementary comparison in the other branch: equal except for NaN likelihoods
         ck.missing(rule, '%s: the loop is left when `%s` holds (complement of the reference test): equivalence for NaN '
@@ -1406,12 +1709,19 @@ def d5_result(ck, r):
     F = fn.name
     X, R, Cn, S = r.X, r.Xrs, r.C, r.Crs
     rets = returns_of(fn)
-    if len(rets) != 1 or not isinstance(rets[0].value, ast.Tuple) or len(rets[0].value.elts) != 2:
-        ck.missing(rule, '%s: single `return T, pi`' % impl)
-    else:
-        ret = rets[0]
-        ck.check(fi.cfg.reachable(r.loop, ret) and not _inside(mod, ret, r.loop), rule, mod, ret, F, u(ret), 'returns (T, pi) after the iteration',
-                 '%s must return (T, pi) after the iteration' % impl)
+    # a return is either behind the iteration (every path to it runs the loop) or bypasses it
+    behind = [x for x in rets if fi.cfg.dominates(r.loop, x) and not _inside(mod, x, r.loop)]
+    bypass = [x for x in rets if x not in behind and not fi.cfg.reachable(r.loop, x)]
+    other = [x for x in rets if x not in behind and x not in bypass]
+    for x in other:
+        ck.missing(rule, '%s: `%s` (%s) is reached both with and without finishing the iteration: not modelled' % (impl, u(x)[:60], mod.loc(x)))
+    for x in bypass:
+        _bypass_return(ck, r, x)
+    behind = [x for x in behind if isinstance(x.value, ast.Tuple) and len(x.value.elts) == 2]
+    if not behind or len(behind) + len(bypass) + len(other) != len(rets):
+        ck.missing(rule, '%s: `return T, pi` behind the iteration' % impl)
+    for ret in behind:
+        ck.ok(rule, mod, ret, '%s: %s' % (impl, u(ret)), 'returns (T, pi) after the iteration')
         te, pe = (fi.expand(e, stop=r.states) for e in ret.value.elts)
         ns = ['len(%s)' % X, '%s.shape[0]' % X, 'len(%s)' % Cn, '%s.shape[0]' % Cn, 'len(%s)' % R, '%s.shape[0]' % R]
         forms = []
@@ -1420,11 +1730,11 @@ def d5_result(ck, r):
             forms += ['%s / %s[:, None]' % (X, rs), '%s / %s.sum(axis=%s, keepdims=True)' % (X, X, ax)]
             for n in ns:
                 forms += ['%s / %s.reshape(%s, 1)' % (X, rs, n), '%s / %s.reshape((%s, 1))' % (X, rs, n)]
-        v = classify(te, forms, scope={X, Cn, R})
+        v = classify(te, forms, scope=set(r.states))
         ck.decide(v, rule, mod, _def_stmt(fi, ret.value.elts[0]) or ret, F, 'T = %s' % fi.xu(ret.value.elts[0], stop=r.states)[:150], 'T = X / rowsum(X) (column-vector broadcast)',
                   '%s: T must be X divided by its row sums shaped (n, 1)' % impl)
         forms = ['%s / %s.sum()' % (R, R), '%s / %s.sum()[..., None]' % (R, R), '%s / %s.sum(axis=0)' % (R, R)]
-        v = classify(pe, forms, scope={R})
+        v = classify(pe, forms, scope=set(r.states))
         ck.decide(v, rule, mod, _def_stmt(fi, ret.value.elts[1]) or ret, F, 'pi = %s' % fi.xu(ret.value.elts[1], stop=r.states)[:150],
                   'pi = rowsum(X) / sum(X)', '%s: pi must be X_rs / X_rs.sum()' % impl)
     # initialisation: the definitions that reach the iteration loop
@@ -1448,17 +1758,107 @@ def d5_result(ck, r):
                 for m in _inplace_sites(fi, src)), rule + '.init', mod, s0, F, '%s is current when the iteration starts' % nm,
                 '%s is not changed between `%s` and the iteration' % (src, u(s0)), '%s is changed after its row sums were taken' % src)
     # precondition: every state has counts
-    atoms = []
-    for s in walk_local(fn):
-        if isinstance(s, ast.Assert) and fi.cfg.dominates(s, r.loop) and not _inside(mod, s, r.loop):
-            for a in conjuncts(s.test, True) or []:
-                if isinstance(a, tuple) and a[2]:
-                    atoms.append((fi.xu(a[1], stop=r.states), s))
+    # (what holds when the iteration starts: assertions that dominate it, and the guard clauses `if t: raise` ahead of it)
+    atoms, mentions = [], []
+    conds = [(s.test, True, s) for s in walk_local(fn)
+             if isinstance(s, ast.Assert) and fi.cfg.dominates(s, r.loop) and not _inside(mod, s, r.loop)]
+    conds += [(t, pol, owner) for t, pol, owner in (_controlling_tests(mod, r.loop, fn) or []) if isinstance(owner, ast.If)]
+    for t, pol, s in conds:
+        mentions.append(({n.id for n in ast.walk(fi.expand(t, stop=r.states)) if isinstance(n, ast.Name)}, s))
+        for a in conjuncts(t, pol) or []:
+            if isinstance(a, tuple):
+                atoms.append((fi.xu(a[1], stop=r.states), a[2], s))
     for nm in (R, S):
         want = CS('np.all(%s > 0)' % nm, '(%s > 0).all()' % nm, 'all(%s > 0)' % nm)
-        pos = [s for t, s in atoms if t in want]
+        # `not any(x <= 0)`: the same set of real vectors
+        want_not = CS('np.any(%s <= 0)' % nm, '(%s <= 0).any()' % nm, 'any(%s <= 0)' % nm)
+        pos = [s for t, pol, s in atoms if (pol and t in want) or (not pol and t in want_not)]
+        if not pos and any(nm in names for names, s in mentions):
+            ck.missing(rule + '.precondition', '%s: a condition on `%s` is established ahead of the iteration (%s) in a form the rule does '
+                       'not recognise' % (impl, nm, mod.loc([s for names, s in mentions if nm in names][0])))
+            continue
         ck.check(len(pos) >= 1, rule + '.precondition', mod, pos[0] if pos else fn, F, 'assert np.all(%s > 0)' % nm,
                  'every state has counts (precondition after trimming)', 'the estimator must reject states without counts')
+
+
+_TOLERANCE_TESTS = ('np.allclose', 'np.isclose', 'math.isclose', 'numpy.allclose', 'numpy.isclose', 'isclose', 'allclose')
+_INTEGRAL_ATTRS = ('shape', 'size', 'ndim', 'nnz', 'dtype')
+
+
+def _open_condition(e, polarity, data):
+    """The atomic condition holds on a set of count matrices with non-empty
+    interior: a tolerance comparison (allclose / isclose, either polarity) or an
+    ordering comparison between floating-point functions of the count data.
+    Tests of sizes / dtypes and exact (in)equalities are not (-> False);
+    None: not a condition on the data at all."""
+    def on_data(x):
+        names = {n.id for n in ast.walk(x) if isinstance(n, ast.Name)}
+        integral = any((isinstance(n, ast.Attribute) and n.attr in _INTEGRAL_ATTRS) or
+                       (isinstance(n, ast.Call) and call_name(n) in ('len', 'type', 'isinstance', 'np.ndim', 'np.shape', 'np.size'))
+                       for n in ast.walk(x))
+        return bool(names & set(data)) and not integral
+    if isinstance(e, Cmp):
+        if not (on_data(e.lhs) or on_data(e.rhs)):
+            return None
+        if e.op in (ast.Lt, ast.LtE, ast.Gt, ast.GtE) and all(on_data(x) or isinstance(const_value(x), (int, float)) for x in (e.lhs, e.rhs)):
+            return True
+        return False
+    # `<tolerance test>(...)`, `<tolerance test>(...).all()`, `np.all(<tolerance test>(...))`
+    while isinstance(e, ast.Call) and ((isinstance(e.func, ast.Attribute) and e.func.attr in ('all', 'any') and not e.args and isinstance(e.func.value, ast.Call)) or
+                                       (call_name(e) in ('np.all', 'all', 'np.any', 'any', 'bool') and len(e.args) == 1 and isinstance(e.args[0], ast.Call))):
+        e = e.func.value if isinstance(e.func, ast.Attribute) and e.func.attr in ('all', 'any') and not e.args else e.args[0]
+    if not on_data(e):
+        return None
+    return isinstance(e, ast.Call) and call_name(e) in _TOLERANCE_TESTS
+
+
+def _bypass_return(ck, r, ret):
+    """A `return` that no path through the iteration reaches hands out a value
+    that was never iterated.  It is the reversible ML fixed point only on the
+    thin set of inputs whose start value already is one (e.g. EXACTLY symmetric
+    counts); a guard that holds on a set with non-empty interior (tolerance
+    test, ordering of floating-point functions of the counts) necessarily
+    admits inputs for which it is not.  Three-valued: such a guard over the
+    located operands -> violation; anything else (exact tests, sizes, flags,
+    helpers, values computed from other operands) -> not decided."""
+    rule = 'C12.D5.result.no-bypass'
+    mod, fn, fi, impl = r.mod, r.fn, r.fi, r.impl
+    F = fn.name
+    where = '%s: `%s` (%s) bypasses the iteration' % (impl, u(ret)[:60], mod.loc(ret))
+    tests = _controlling_tests(mod, ret, fn)
+    if not tests:
+        ck.missing(rule, where + (': it is not under a plain `if`' if tests is None else ' unconditionally'))
+        return
+    data = set(r.states)
+    val = fi.expand(ret.value, stop=r.states) if ret.value is not None else None
+    if val is None or not _closed_over(val, data):
+        ck.missing(rule, where + ' with a value that is not a function of the located operands (%s): not decided' % ', '.join(r.states))
+        return
+    atoms, shown = [], []
+    for t, pol, owner in tests:
+        te = fi.expand(t, stop=r.states)
+        cs = conjuncts(te, pol)
+        shown.append(('%s' if pol else 'not (%s)') % u(t)[:80])
+        if cs is None:
+            atoms.append(False)
+            continue
+        for c in cs:
+            if isinstance(c, Cmp):
+                atoms.append(_open_condition(c, True, data))
+            else:
+                atoms.append(_open_condition(c[1], c[2], data) if _closed_over(c[1], data) else False)
+    guard = ' and '.join(shown)
+    if not atoms or not all(a is True for a in atoms):
+        ck.missing(rule, where + ' when `%s`: whether the un-iterated value is the fixed point for every such input is not decided' % guard)
+        return
+    owner = tests[0][2]
+    ck.bad(rule, mod, owner if isinstance(owner, ast.stmt) else ret, F, '%s: return without iteration' % impl,
+           '%s: when `%s` the function returns `%s` without running the Prinz iteration. The condition is a tolerance / ordering test on '
+           'floating-point functions of the counts: it holds on an open set of count matrices (e.g. counts that are symmetric only up '
+           'to the tolerance), whereas a value that was never iterated is the reversible maximum-likelihood fixed point only for the thin '
+           'set of inputs whose start value C + C.T already satisfies the Prinz equations (exactly symmetric counts). For the other '
+           'admitted inputs the returned (T, pi) violates detailed balance and the self-consistency equations, and differs from the '
+           'sibling implementation, which iterates' % (impl, guard, fi.xu(ret.value, stop=r.states)[:120]))
 
 
 def _def_stmt(fi, name_node):
@@ -1978,14 +2378,15 @@ def d3_dtype(ck, rx, mp):
     rule = 'C12.D3.domain.dtype'
     mod, fn = rx.mod, rx.fn
     F = fn.name
-    at = getattr(fn, 'cy_argtypes', {}).get(rx.C)
+    P = rx.Cparam
+    at = getattr(fn, 'cy_argtypes', {}).get(P)
     if at is None or not at.is_buffer or not at.elem:
-        ck.ok(rule, mod, fn, '%s: `%s` is not a typed buffer' % (F, rx.C), 'no element type is imposed on the caller')
+        ck.ok(rule, mod, fn, '%s: `%s` is not a typed buffer' % (F, P), 'no element type is imposed on the caller')
         return
     if at.elem not in ('np.float64_t', 'np.double_t', 'double', 'np.npy_float64', 'np.npy_double'):
-        ck.missing(rule, '%s: element type %s of `%s` not in the table' % (F, at.elem, rx.C))
+        ck.missing(rule, '%s: element type %s of `%s` not in the table' % (F, at.elem, P))
         return
-    pos = params(fn).index(rx.C)
+    pos = params(fn).index(P)
     n = 0
     for m2 in (mp, mod):
         for q, f2 in m2.functions.items():
@@ -1993,7 +2394,7 @@ def d3_dtype(ck, rx, mp):
                 if (call_name(c) or '').split('.')[-1] != F:
                     continue
                 n += 1
-                a = c.args[pos] if pos < len(c.args) and not any(isinstance(x, ast.Starred) for x in c.args[:pos + 1]) else kwarg(c, rx.C)
+                a = c.args[pos] if pos < len(c.args) and not any(isinstance(x, ast.Starred) for x in c.args[:pos + 1]) else kwarg(c, P)
                 if a is None:
                     ck.missing(rule, '%s::%s: count-matrix argument of `%s` not explicit' % (m2.rel.split('/')[-1], f2.name, u(c)[:60]))
                     continue
@@ -2017,14 +2418,62 @@ def d3_dtype(ck, rx, mp):
                            'buffer acquisition raises ValueError("Buffer dtype mismatch") for every other dtype - int64 (what '
                            'assigns_to_counts produces), int32, float32 - while the pure-Python sibling converts with astype(float) and '
                            'returns the MLE: the two implementations do not agree on integer count matrices. Convert at the call: '
-                           'np.asarray(%s, dtype=np.float64)' % (f2.name, u(e)[:40], F, F, rx.C, at.elem, at.ndim, u(e)[:40]))
+                           'np.asarray(%s, dtype=np.float64)' % (f2.name, u(e)[:40], F, F, P, at.elem, at.ndim, u(e)[:40]))
                 else:
                     ck.missing(rule, '%s::%s: dtype of `%s` handed to %s not decided' % (m2.rel.split('/')[-1], f2.name, u(e)[:60], F))
     if n == 0:
-        ck.observe(rule, mod, fn, '%s accepts only %s buffers for `%s` and has no caller in the package' % (F, at.elem, rx.C))
+        ck.observe(rule, mod, fn, '%s accepts only %s buffers for `%s` and has no caller in the package' % (F, at.elem, P))
 
 
 # ---------------------------------------------------------------------------
+
+_MEMO_DECORATORS = ('lru_cache', 'cache', 'cached', 'memoize', 'memoized', 'cached_property')
+
+
+def d6_no_hidden_state(ck, items):
+    """The model is a function of the arguments of the call only (necessary
+    for "for every count matrix ..." and for the agreement of the two
+    implementations): the estimator functions declare no global / nonlocal
+    name, store into no object that is not local to the call, and are not
+    memoised (an ndarray argument is unhashable / compared by identity, so a
+    cache returns the model of an earlier matrix or raises)."""
+    rule = 'C12.D6.no-hidden-state'
+    from ..normal import MUTATING_METHODS
+    for mod, fn in items:
+        fi = finfo(mod, fn)
+        module_level = {n.id for st in getattr(mod.tree, 'body', []) if isinstance(st, (ast.Assign, ast.AnnAssign, ast.AugAssign))
+                        for t in (st.targets if isinstance(st, ast.Assign) else [st.target]) for n in ast.walk(t) if isinstance(n, ast.Name)}
+        local = set(fi.rd.locals) | set(params(fn))
+        bad = None
+        for d in getattr(fn, 'decorator_list', []) or []:
+            nm = (call_name(d) if isinstance(d, ast.Call) else u(d)) or u(d)
+            if nm.split('.')[-1] in _MEMO_DECORATORS:
+                bad = (d, 'is memoised (`@%s`): the result of a call would depend on earlier calls' % nm)
+        for x in walk_local(fn):
+            if bad is not None:
+                break
+            if isinstance(x, (ast.Global, ast.Nonlocal)):
+                bad = (x, 'declares `%s`: state that outlives the call' % u(x))
+            elif isinstance(x, (ast.Subscript, ast.Attribute)) and isinstance(x.ctx, (ast.Store, ast.Del)):
+                base = x
+                while isinstance(base, (ast.Subscript, ast.Attribute)):
+                    base = base.value
+                if isinstance(base, ast.Name) and base.id not in local:
+                    bad = (x, 'stores into `%s`, an object that is not local to the call (module-level state)' % u(x)[:60])
+            elif isinstance(x, ast.Call) and isinstance(x.func, ast.Attribute) and x.func.attr in MUTATING_METHODS:
+                base = x.func.value
+                while isinstance(base, (ast.Subscript, ast.Attribute)):
+                    base = base.value
+                if isinstance(base, ast.Name) and base.id not in local and base.id in module_level:
+                    bad = (x, 'changes the module-level object `%s` in place (`%s`)' % (base.id, u(x)[:60]))
+        if bad is None:
+            ck.ok(rule, mod, fn, '%s: no global/nonlocal, no store into a non-local object, not memoised' % fn.name,
+                  'the result depends on the arguments of the call only')
+        else:
+            ck.bad(rule, mod, bad[0] if hasattr(bad[0], 'lineno') else fn, fn.name, '%s: state outside the call' % fn.name,
+                   '%s %s; the estimator must return, for every count matrix, the fixed point for THAT matrix - independent of what '
+                   'was estimated before - and the same in both implementations' % (fn.name, bad[1]))
+
 
 def _guarded(ck, rule, f, r):
     """A part of the analysis that breaks down on an unforeseen shape must not
@@ -2063,7 +2512,9 @@ def check(ck):
     for r in (rp, rx):
         if r is None:
             continue
-        v = classify(r.fi.expand(r.loop.iter), ['range(%s)' % r.cap, 'range(0, %s)' % r.cap], scope={r.cap})
+        it = r.fi.expand(r.loop.iter)
+        v = _range_verdict(it, ['range(%s)' % r.cap], [], extra=(r.cap,)) or \
+            classify(it, ['range(%s)' % r.cap, 'range(0, %s)' % r.cap], scope={r.cap})
         ck.decide(v, 'C12.D4.bounded', r.mod, r.loop, r.fn.name, u(r.loop.iter), '%s: loop bounded by range(max_iter)' % r.impl,
                   '%s: the iteration must be bounded by range(%s)' % (r.impl, r.cap))
         m = _guarded(ck, 'C12.D3.reference', sweep_model, r)
@@ -2082,9 +2533,13 @@ def check(ck):
     ck.floor('C12.D1.no-exact-float-assert', n, 8, 'assertions in the two estimators')
     # work on a float copy (python): the definition of C that reaches the iteration
     if rp is not None:
-        fi, Cn = rp.fi, rp.C
+        fi, Cn, P0 = rp.fi, rp.C, rp.Cparam
         sites = [s for s in fi.rd.defs_at(rp.loop, Cn)]
         if sites == ['PARAM']:
+            ck.bad('C12.D4.copy', mp, fp, '_prinz_mle_py', Cn, '_prinz_mle_py must copy the counts to float before iterating '
+                   '(integer counts would make X an integer array and every update would be truncated)')
+        elif len(sites) == 1 and sites[0] not in ('PARAM', 'UNBOUND') and isinstance(fi.def_value(sites[0], Cn), ast.Name) \
+                and fi.def_value(sites[0], Cn).id == P0 and set(fi.defs_of_use(fi.def_value(sites[0], Cn))) == {'PARAM'}:
             ck.bad('C12.D4.copy', mp, fp, '_prinz_mle_py', Cn, '_prinz_mle_py must copy the counts to float before iterating '
                    '(integer counts would make X an integer array and every update would be truncated)')
         elif len(sites) != 1 or sites[0] in ('PARAM', 'UNBOUND') or fi.def_value(sites[0], Cn) is None:
@@ -2092,9 +2547,16 @@ def check(ck):
         else:
             forms = []
             for ft in ('float', 'np.float64', 'np.double', "'float64'"):
-                forms += ['%s.copy().astype(%s)' % (Cn, ft), '%s.astype(%s)' % (Cn, ft), 'np.array(%s, dtype=%s)' % (Cn, ft),
-                          '%s.astype(%s).copy()' % (Cn, ft), 'np.array(%s, dtype=%s, copy=True)' % (Cn, ft)]
-            v = classify(fi.def_value(sites[0], Cn), forms, scope={Cn})
+                forms += ['%s.copy().astype(%s)' % (P0, ft), '%s.astype(%s)' % (P0, ft), 'np.array(%s, dtype=%s)' % (P0, ft),
+                          '%s.astype(%s).copy()' % (P0, ft), 'np.array(%s, dtype=%s, copy=True)' % (P0, ft)]
+            val = fi.expand(fi.def_value(sites[0], Cn), stop=(P0,))
+            uses = [n for n in ast.walk(fi.def_value(sites[0], Cn)) if isinstance(n, ast.Name) and n.id == P0]
+            if _yields_float64(val) and _closed_over(val, {P0}) and uses and all(set(fi.defs_of_use(n)) == {'PARAM'} for n in uses):
+                # float64 by construction, of the caller's matrix.  Whether it is a fresh array does not matter: the
+                # estimator never stores into its counts (C12.D3.roles: C is only read; C12.D6.inputs-unmodified)
+                v = ('match', {})
+            else:
+                v = classify(val, forms, scope={P0})
             ck.decide(v, 'C12.D4.copy', mp, sites[0], '_prinz_mle_py', u(sites[0]), 'the iteration works on a float copy of the counts',
                       '_prinz_mle_py must copy the counts to float before iterating')
     # mle: densify + rewrap (shared with C04)
@@ -2108,6 +2570,10 @@ def check(ck):
     if rx is not None:
         _guarded(ck, 'C12.D3.domain.layout', lambda ck_, r_: d3_layout(ck_, r_, mp), rx)
         _guarded(ck, 'C12.D3.domain.dtype', lambda ck_, r_: d3_dtype(ck_, r_, mp), rx)
+    try:
+        d6_no_hidden_state(ck, [(mp, mp.func('mle')), (mp, mp.func('_prinz_mle')), (mp, fp), (mx, fx)])
+    except (AnalysisIncomplete, AttributeError, KeyError, IndexError, TypeError, ValueError, RecursionError) as e:
+        ck.missing('C12.D6.no-hidden-state', 'construct outside the shapes the rule models (%r)' % (e,))
     check_no_arg_mutation(ck, 'C12.D6.inputs-unmodified', [(BU, 'mle'), (BU, '_prinz_mle_py'), (LM, '_mle_prinz_dense'), (BU, '_prinz_mle')])
     # _prinz_mle dispatch
     d4_dispatch(ck, mp)
